@@ -159,7 +159,7 @@ def run_batch(flavour, prop, tier, base, count, nworkers, results, crashes, fw_e
                     if rc != 0:
                         fw_errors.append("worker exited with %d outside any scenario" % rc)
                     live.remove(w)
-            elif now - w.last_output > 300:
+            elif now - w.last_output > float(os.environ.get("TBFSIM_HANG_S", "300")):
                 w.p.kill()
                 crashes.append({"seed": st["seed"], "sub": st["sub"] or 0, "stage": st["stage"] or "?", "what": "hang", "flavour": flavour})
                 nxt = (st["n"] if st["n"] is not None else count) + w.of
